@@ -18,14 +18,14 @@ class C12(Prop):
             "distinct = distinct recipe JSON")
     ASSUMPTIONS = ["the top instance is not itself a child (its outer pins are unconnected)",
                    "BOTH is taken as the union of INSIDE and OUTSIDE"]
-    N = {"quick": 1600, "thorough": 20000}
+    N = {"quick": 4800, "thorough": 60000}
     CASE_TIMEOUT_S = 60
 
     def cfg(self, tier):
         big = tier == "thorough"
         return gen_ir.Cfg(unnamed=True, max_defs=7 if big else 6, max_children=4 if big else 3,
                           max_width=3 if big else 2, share=True, late=True, dense=True, top="always",
-                          top_modes=["standalone", "definition"], data=False)
+                          top_modes=["standalone", "definition"], data=False, noref_children=True)
 
     def strategy(self, tier):
         return st.fixed_dictionaries({"design": gen_ir.recipes(self.cfg(tier)),
